@@ -415,12 +415,13 @@ Section Others.
   Let Hdi := fi_disk _ _ _ _ _ _ _ _ Hat.
 
   Lemma closed_bytes d' hx e0 ch0 : frame_ok (s_disk s) d' v T (pend_of s v) hx ->
-    In (NFile e0 ch0) (all_nodes T) -> e_cluster e0 <> hx -> file_bytes d' v ch0 = file_bytes (s_disk s) v ch0.
+    In (NFile e0 ch0) (all_nodes T) -> (2 <= e_cluster e0 -> e_cluster e0 <> hx) ->
+    file_bytes d' v ch0 = file_bytes (s_disk s) v ch0.
   Proof.
     intros [Hc Hd] Hn Hne. destruct (all_nodes_rep _ _ _ _ (di_tree _ _ _ _ _ _ Hdi) _ Hn) as (t & bl0 & Hr & _).
     apply node_rep_file in Hr. destruct Hr as (_ & _ & [(A1 & fu & A2)|(_ & ->)]); [|reflexivity].
     apply file_bytes_ext. intros j Hj.
-    apply (Hd (e_cluster e0) ch0 j); [left; exists e0, ch0; repeat split; assumption|exact Hne|exact (chain_at_any _ _ _ _ _ A2)|exact Hj].
+    apply (Hd (e_cluster e0) ch0 j); [left; exists e0, ch0; repeat split; assumption|exact (Hne A1)|exact (chain_at_any _ _ _ _ _ A2)|exact Hj].
   Qed.
 
   Lemma open_file_head f : In f (s_files s) -> 2 <= e_cluster (f_entry f) ->
@@ -432,12 +433,12 @@ Section Others.
   Qed.
 
   Lemma open_bytes s' hx f : frame_ok (s_disk s) (s_disk s') v T (pend_of s v) hx ->
-    In f (s_files s) -> e_cluster (f_entry f) <> hx -> mem_fv s' v f = mem_fv s v f.
+    In f (s_files s) -> (2 <= e_cluster (f_entry f) -> e_cluster (f_entry f) <> hx) -> mem_fv s' v f = mem_fv s v f.
   Proof.
-    intros [Hc Hd] Hf Hne. unfold mem_fv.
+    intros [Hc Hd] Hf Hne0. unfold mem_fv.
     pose proof (of_chain _ _ _ _ (ofile_of fsz vid s vi v bl rch T Hat f Hf)) as Hck. unfold chain_ok in Hck.
     destruct Hck as [(A1 & (fu & A2) & _)|(A1 & A2 & _)].
-    - pose proof (chain_at_any _ _ _ _ _ A2) as A3. pose proof (open_file_head f Hf A1) as Hfh.
+    - pose proof (chain_at_any _ _ _ _ _ A2) as A3. pose proof (open_file_head f Hf A1) as Hfh. pose proof (Hne0 A1) as Hne.
       assert (Efc : fchain (s_disk s') v f = fchain (s_disk s) v f).
       { unfold fchain at 1. replace (e_cluster (f_entry f) <? 2) with false by (symmetry; apply N.ltb_ge; exact A1).
         exact (chain_l_at _ _ _ _ (Hc _ _ Hfh Hne A3)). }
